@@ -53,6 +53,10 @@ func (q queryServer) CalculationCreatePosition(ctx context.Context, req *types.Q
 	if err != nil {
 		return nil, err
 	}
+	// a pool without any position has no price yet: there is no ratio to compute the other amount from
+	if !pool.HasPosition(sdk.UnwrapSDKContext(ctx)) {
+		return nil, types.ErrEmptyLiquidity
+	}
 	var liquidityDelta math.LegacyDec
 	if req.Denom == pool.DenomBase {
 		liquidityDelta = types.LiquidityBase(amount, currentSqrtPrice, sqrtPriceUpperTick)
